@@ -180,6 +180,39 @@ pub fn decode_answer(goal: &suiron::Goal, ss: &suiron::SubstitutionSet) -> (Vec<
     }
 }
 
+
+/// Does following bindings from some variable of `ss` lead back to that variable (directly or through the arguments of
+/// complex terms / elements of lists)? Checked on the substitution set itself, before anything tries to resolve it.
+pub fn binding_cycle(ss: &suiron::SubstitutionSet) -> Option<String> {
+    fn vars_of(u: &U, out: &mut Vec<usize>) {
+        match u {
+            U::LogicVar { id, .. } => out.push(*id),
+            U::SComplex(v) => for x in v { vars_of(x, out); },
+            U::SFunction { terms, .. } => for x in terms { vars_of(x, out); },
+            U::SLinkedList { term, next, count, .. } => { if *count > 0 { vars_of(term, out); vars_of(next, out); } }
+            _ => {}
+        }
+    }
+    let n = ss.len();
+    let edges: Vec<Vec<usize>> = (0..n).map(|i| { let mut o = vec![]; if let Some(t) = &ss[i] { vars_of(t, &mut o); } o.retain(|j| *j < n); o }).collect();
+    // iterative three-colour depth-first search
+    let mut colour = vec![0u8; n];
+    for root in 0..n {
+        if colour[root] != 0 { continue; }
+        let mut stack: Vec<(usize, usize)> = vec![(root, 0)];
+        colour[root] = 1;
+        while let Some((v, k)) = stack.pop() {
+            if k < edges[v].len() {
+                stack.push((v, k + 1));
+                let w = edges[v][k];
+                if colour[w] == 1 { return Some(format!("the binding of variable #{} ({}) leads back to variable #{}", v, ss[v].as_ref().map(|t| format!("{}", t)).unwrap_or_default(), w)); }
+                if colour[w] == 0 { colour[w] = 1; stack.push((w, 0)); }
+            } else { colour[v] = 2; }
+        }
+    }
+    None
+}
+
 /// Ask the query through `next_solution` until `None` (or `max_answers`), then `reasks` more times.
 pub fn run_program(p: &Program, max_answers: usize, reasks: usize, tick_limit: u64) -> Result<EngineRun, EngineFail> {
     run_program_src(p, None, max_answers, reasks, tick_limit).map(|r| r.expect("ast kb cannot be rejected"))
